@@ -63,10 +63,14 @@ type ssCC struct {
 	rmCalls   int64
 	pubCalls  int64
 	maxPoolWB int32
+	slowNew   int32 // 1: NewSubConn takes 30ms (slow connection factory)
 }
 
 func (c *ssCC) NewSubConn(a []resolver.Address, o balancer.NewSubConnOptions) (balancer.SubConn, error) {
 	atomic.AddInt64(&c.newCalls, 1)
+	if atomic.LoadInt32(&c.slowNew) == 1 {
+		time.Sleep(30 * time.Millisecond)
+	}
 	if len(a) == 0 {
 		return nil, fmt.Errorf("verif: empty address list")
 	}
@@ -581,9 +585,12 @@ func TestVerifPoolStress(t *testing.T) {
 		case "C07":
 			ssOneReplacement(out, rng, idx)
 		case "C03":
-			if idx%2 == 0 {
+			switch idx % 3 {
+			case 0:
 				ssToctouGrow(out, rng, idx)
-			} else {
+			case 1:
+				ssSlowFactoryGrow(out, rng, idx)
+			default:
 				ssQuiescent(out, env, cfgs[5], rng, idx)
 			}
 		default:
@@ -714,6 +721,9 @@ func ssQuiescent(out *vOut, env vEnv, cfg ssCfg, rng *vRand, idx int64) {
 // on a fixed all-READY pool => exactly k per channel.
 func ssRoundRobinExact(out *vOut, rng *vRand, idx int64) {
 	n := 1 + rng.Intn(4)
+	if rng.Intn(3) == 0 {
+		n = 5 + rng.Intn(8) // larger pools, even sizes that are not powers of two included
+	}
 	k := 1 + rng.Intn(40)
 	m := 2 + rng.Intn(14)
 	if idx%2 == 1 {
@@ -1048,6 +1058,65 @@ func ssOneReplacement(out *vOut, rng *vRand, idx int64) {
 	out.sample(map[string]interface{}{"case": idx, "summary": log[0]})
 	if created != int64(n) || pending != n {
 		out.violation(vViol{Sig: "C07.stress-one-replacement", Rule: "C07.stress-one-replacement", Detail: fmt.Sprintf("%d channels each had %d calls time out concurrently after the window: %d replacement connections created, %d pending; exactly one per channel is allowed", n, k, created, pending), Case: idx, Log: log})
+	}
+}
+
+// ssSlowFactoryGrow: the connection factory (cc.NewSubConn) is slow while
+// several saturated picks on different pickers each want to grow a pool that is
+// one below maxSize: whatever the interleaving, the pool may not exceed maxSize.
+func ssSlowFactoryGrow(out *vOut, rng *vRand, idx int64) {
+	verifClockOn = false
+	max := 2 + rng.Intn(3)
+	cp := &pb.ChannelPoolConfig{MinSize: uint32(max - 1), MaxSize: uint32(max), MaxConcurrentStreamsLowWatermark: 1}
+	cc := &ssCC{}
+	b := newBuilder().Build(cc, balancer.BuildOptions{}).(*gcpBalancer)
+	b.UpdateClientConnState(balancer.ClientConnState{ResolverState: resolver.State{Addresses: []resolver.Address{{Addr: "v1"}}}, BalancerConfig: &GCPBalancerConfig{ApiConfig: &pb.ApiConfig{ChannelPool: cp}}})
+	var pickers []balancer.Picker
+	for _, c := range cc.snapshotConns() {
+		b.UpdateSubConnState(c, balancer.SubConnState{ConnectivityState: connectivity.Connecting})
+		b.UpdateSubConnState(c, balancer.SubConnState{ConnectivityState: connectivity.Ready})
+	}
+	pickers = append(pickers, cc.picker(rng, 0, nil))
+	// further equivalent pickers: flap one connection (each READY report publishes a new picker)
+	c0 := cc.snapshotConns()[0]
+	nPickers := 2 + rng.Intn(3)
+	for len(pickers) < nPickers {
+		b.UpdateSubConnState(c0, balancer.SubConnState{ConnectivityState: connectivity.Idle})
+		b.UpdateSubConnState(c0, balancer.SubConnState{ConnectivityState: connectivity.Connecting})
+		b.UpdateSubConnState(c0, balancer.SubConnState{ConnectivityState: connectivity.Ready})
+		pickers = append(pickers, cc.picker(rng, 0, nil))
+	}
+	mkctx := func() *ssCtx { return &ssCtx{Context: context.Background()} }
+	for i := 0; i < max-1; i++ {
+		if _, err := pickers[len(pickers)-1].Pick(balancer.PickInfo{FullMethodName: "/v/plain", Ctx: mkctx()}); err != nil {
+			out.inconclusive("slow-factory: could not saturate")
+			return
+		}
+	}
+	atomic.StoreInt32(&cc.slowNew, 1)
+	var wg sync.WaitGroup
+	start := make(chan struct{})
+	errs := make([]error, len(pickers))
+	for i, p := range pickers {
+		wg.Add(1)
+		go func(i int, p balancer.Picker) {
+			defer wg.Done()
+			<-start
+			_, errs[i] = p.Pick(balancer.PickInfo{FullMethodName: "/v/plain", Ctx: mkctx()})
+		}(i, p)
+	}
+	close(start)
+	wg.Wait()
+	atomic.StoreInt32(&cc.slowNew, 0)
+	b.mu.RLock()
+	pool := len(b.scRefs)
+	b.mu.RUnlock()
+	out.hit("C03.slow-factory-grow")
+	log := []string{fmt.Sprintf("slow-factory-grow max=%d: pool of %d saturated channels, %d concurrent saturated picks on %d different pickers while NewSubConn takes 30ms: pool=%d, NewSubConn calls=%d, pick results %v", max, max-1, len(pickers), len(pickers), pool, atomic.LoadInt64(&cc.newCalls), errs)}
+	out.nontrivial(vHashStrings([]string{"slow-factory", fmt.Sprint(max, len(pickers))}))
+	out.sample(map[string]interface{}{"case": idx, "summary": log[0]})
+	if pool > max {
+		out.violation(vViol{Sig: "C03.slow-factory-grow", Rule: "C03.slow-factory-grow", Detail: fmt.Sprintf("%d concurrent saturated picks on different pickers grew the pool to %d channels while the connection factory was slow, maxSize is %d", len(pickers), pool, max), Case: idx, Log: log})
 	}
 }
 
